@@ -172,6 +172,19 @@ impl A2 {
                 }
             }
         }
+        // "the same result over any conforming source and sink": how the sink splits the output
+        // across write calls must not change a single byte of it (checked on fault-free runs)
+        if !e.any_fault && s.dir == Dir::Enc && !s.ws.caps.is_empty() && twin.run.outcome.is_ok() {
+            let mut plain = s.clone();
+            plain.ws.caps.clear();
+            let p = exec_once(&plain, &input, false, None);
+            out.steps += p.steps;
+            if p.run.outcome.is_ok() && p.run.sink != twin.run.sink {
+                let at = p.run.sink.iter().zip(twin.run.sink.iter()).position(|(a, b)| a != b).unwrap_or(p.run.sink.len().min(twin.run.sink.len()));
+                out.violations.push(viol("C10", "result_depends_on_write_partition", format!("with write caps {:?} the output ({} bytes) differs from the output over an all-accepting sink ({} bytes), first at offset {}", &s.ws.caps[..s.ws.caps.len().min(4)], twin.run.sink.len(), p.run.sink.len(), at)));
+            }
+            out.count("probe.write_partition_cross_check", 1);
+        }
         if let Some(m) = e.monitor_violation.or(twin.monitor_violation) {
             out.violations.push(viol("C04", "release_before_auth", m));
         }
@@ -355,6 +368,12 @@ impl Family for A2 {
         let (input, _) = build_input(base);
         let twin = exec_once(base, &input, false, None);
         let (r, w, f) = (twin.run.reads, twin.run.writes, twin.run.flushes);
+        {
+            let mut s0 = base.clone();
+            s0.enumerate = false;
+            let out0 = self.judge(&s0);
+            emit(s0, out0);
+        }
         let mut one = |rs: ReadScript, ws: WriteScript| {
             let mut s = base.clone();
             s.rs = rs;
